@@ -43,6 +43,7 @@ def run(ctx):
         kind = rng.choice(["dna", "rna", "protein"])
         recs = gen.family(rng, kind, rng.randint(2, 10), rng.choice([10, 50, 150, 600 if not ctx.quick else 100]), sub=0.15, indel=0.06)
         nuc = kind != "protein"
+        boundary = False
         if nuc and rng.random() < 0.4:
             # IUPAC-rich nucleotides (the class decision must not flip with the spelling)
             recs = [(n, "".join(ch if rng.random() < rng.choice([0.97, 0.93, 0.85]) else rng.choice("RYSWKMBDHVN") for ch in s)) for n, s in recs]
@@ -52,12 +53,19 @@ def run(ctx):
             po = sum(1 for _, s in recs for ch in s if ch.upper() in "DEFHIKLMPQRSVWY")
             if po * 10 > tot:
                 nuc = False
+        if nuc is True and kind != "protein" and rng.random() < 0.25:
+            # composition near the DNA/protein decision boundary (about one protein-only IUPAC letter per 8 nucleotides): the class
+            # must be the same for both spellings; if kalign calls both protein the T<->U clause does not apply (skipped below)
+            L = max(len(s) for _, s in recs)
+            recs = [(n, "".join(ch if (k % 9) else rng.choice("RYSWKMDHV") for k, ch in enumerate(s)) if rng.random() < 0.8 else s) for n, s in recs]
+            recs = [(n, s.replace("T", "U") if rng.random() < 0.5 else s) for n, s in recs]
+            boundary = True
         alt = [(n, respell(rng, s, nuc)) for n, s in recs]
         if alt == recs:
             continue
         t = rng.choice([3, 4, 5]) if kind == "protein" else rng.choice([0, 1, 2, 5])
         t = gen.fit_type(t, kind, recs)
-        api = rng.choice(["file", "arr"])
+        api = "file" if boundary else rng.choice(["file", "arr"])      # the detected kind is only observable through the file API
         th = rng.choice([1, 4])
         a = Case(recs, t, threads=th, api=api, fmt="fasta")
         b = Case(alt, t, threads=th, api=api, fmt="fasta")
